@@ -76,6 +76,18 @@ class RigWorld(World):
         return cards_str(out)
 
 
+class Push:
+    """A ChipsPushing record with its amounts as Fractions (Decimal and float chips convert exactly)."""
+
+    def __init__(self, op):
+        self.op = op
+        self.amounts = tuple(Fraction(a) for a in op.amounts)
+        self.pot_index, self.board_index, self.hand_type_index = op.pot_index, op.board_index, op.hand_type_index
+
+    def __repr__(self):
+        return repr(self.op)
+
+
 class SettleMonitor(Monitor):
     def __init__(self, cfg, types=None, prefix='C02'):
         self.cfg = cfg
@@ -105,25 +117,26 @@ class SettleMonitor(Monitor):
         t = type(op).__name__
         n = self.n
         if t == 'AntePosting':
-            self.bets[op.player_index] += op.amount
-            self.ante_bets[op.player_index] += op.amount
+            self.bets[op.player_index] += Fraction(op.amount)
+            self.ante_bets[op.player_index] += Fraction(op.amount)
         elif t in ('BlindOrStraddlePosting', 'BringInPosting', 'CheckingOrCalling'):
-            self.bets[op.player_index] += op.amount
+            self.bets[op.player_index] += Fraction(op.amount)
         elif t == 'CompletionBettingOrRaisingTo':
             self.bets[op.player_index] = Fraction(op.amount)
         elif t == 'BetCollection':
             first_ante_collection = self.collections == 0 and any(self.ante_bets)
             for i in range(n):
-                self.contrib[i] += op.bets[i]
+                self.contrib[i] += Fraction(op.bets[i])
                 if first_ante_collection:
                     self.antes[i] = Fraction(op.bets[i])
                 self.bets[i] = Fraction(0)
             self.ante_bets = [Fraction(0)] * n
             self.collections += 1
         elif t == 'ChipsPushing':
+            op = Push(op)               # amounts as exact rationals whatever the chip type
             if self.pre is None:
                 live = live_model(st.operations[:-1], n)
-                pots = [(p.raked_amount + p.unraked_amount + (sum(op.amounts) if k == op.pot_index else 0), tuple(p.player_indices))
+                pots = [(Fraction(p.raked_amount + p.unraked_amount) + (sum(op.amounts) if k == op.pot_index else 0), tuple(p.player_indices))
                         for k, p in enumerate(st.pots)]
                 self.pre = dict(live=live, shown=[list(st.get_up_cards(i)) for i in range(n)],
                                 boards=[list(st.get_board_cards(b)) for b in st.board_indices],
